@@ -10,12 +10,12 @@ from engine.vloop import Deadlock
 from harness.common import World, mem_places, place_names, run_async
 
 
-def h10(S, max_m=2, extra_max=2, queues=1, max_limit=3, dmax_us=2000, zero=False, backend="mem", latency_us=0, dmin_us=0):
+def h10(S, max_m=2, extra_max=2, queues=1, max_limit=3, dmax_us=2000, zero=False, backend="mem", latency_us=0, dmin_us=0, idle_queue=False, min_m=1, extra_min=1):
     from repid import Job, Router, Worker
     from repid.converter import BasicConverter
 
-    M = S.pick("messages_limit", max_m) + 1
-    extra = S.pick("backlog_beyond_limit", extra_max) + 1
+    M = S.pick("messages_limit", max_m) + min_m
+    extra = S.pick("backlog_beyond_limit", extra_max) + extra_min
     B = M + extra
     limit = S.int("tasks_limit", 1, max_limit)
     dmax = Fraction(dmax_us, 10**6)
@@ -30,17 +30,19 @@ def h10(S, max_m=2, extra_max=2, queues=1, max_limit=3, dmax_us=2000, zero=False
     started = []
     out = {}
     qnames = ["q%d" % i for i in range(queues)]
+    # a further queue the worker serves, empty while the worker runs; a job for it arrives after run() has returned
+    all_queues = qnames + (["idle"] if idle_queue else [])
 
     async def main(loop):
         w = World(backend=backend)
-        await w.open(queues=qnames, record=True)
+        await w.open(queues=all_queues, record=True)
         if latency_us and backend == "redis":
             # every Redis round trip takes this long, so a stop can land between any two commands of a fetch
             w.srv.latency = lambda client: Fraction(latency_us, 10**6)
         from harness.common import observe_consumers
         out["consumer_log"] = observe_consumers(w.broker)
         r = Router()
-        for qn in qnames:
+        for qn in all_queues:
             @r.actor(name="job_" + qn, queue=qn, converter=BasicConverter)
             async def job(i: int):
                 started.append(i)
@@ -61,6 +63,10 @@ def h10(S, max_m=2, extra_max=2, queues=1, max_limit=3, dmax_us=2000, zero=False
             out["returned"] = False
         await asyncio.sleep(0.01 if backend == "mem" else 0.5)
         out["started_at_return"] = len(started)
+        if idle_queue:
+            await Job("job_idle", queue="idle", args={"i": 99}, id_="late", _connection=w.conn).enqueue()
+            await asyncio.sleep(Fraction(3, 2))
+            out["late"] = place_names(w.places("idle"), "late")
         out["places"] = {}
         for qn in qnames:
             out["places"].update(w.places(qn))
@@ -93,6 +99,10 @@ def h10(S, max_m=2, extra_max=2, queues=1, max_limit=3, dmax_us=2000, zero=False
     for i in started:
         S.check("processed-message-gone", place_names(out["places"], f"m{i}") == [], info=str(place_names(out["places"], f"m{i}")))
     S.check("nothing-left-in-flight", all("processing" not in place_names(out["places"], f"m{i}") for i in range(B)))
+    if idle_queue:
+        S.cover("late-arrival")
+        S.check("a-returned-worker-takes-nothing", out["late"] == ["waiting"] and 99 not in started,
+                info=f"a job enqueued after Worker.run() had returned is in {out['late']} (started={started})")
 
 
 def h10_plugin(S):
@@ -207,6 +217,22 @@ HARNESSES = [
         bounds={"broker": "real RabbitMQ broker/consumer on the fake channel", "queues": "2", "M": "[1, 2] quick / [1, 3] thorough", "durations": "(0, 50 ms]", "tasks_limit": "[1, 2]"},
         functions=["connections/rabbitmq/consumer.py:_RabbitConsumer.finish", "connections/rabbitmq/message_broker.py:RabbitMessageBroker.reject"],
         covers=["run-returned"], stubs=["fake AMQP server"]),
+    Harness(
+        name="H10-idle-queue", scenario=h10, workers=8,
+        params={"quick": {"max_m": 2, "extra_max": 1, "queues": 1, "dmax_us": 1000, "max_limit": 2, "idle_queue": True},
+                "thorough": {"max_m": 2, "extra_max": 2, "queues": 2, "dmax_us": 1000, "max_limit": 2, "idle_queue": True}},
+        bounds={"queues": "1 (quick) / 2 with a backlog, plus one the worker serves that is empty during the run", "M": "[1, 2]", "durations": "(0, 1 ms]",
+                "afterwards": "a job for the idle queue is enqueued once run() has returned; observed 1.5 s later"},
+        functions=["_runner.py:_Runner.run_one_queue", "middlewares/wrapper.py:_middleware_wrapper.__call__", "connections/in_memory/consumer.py:_InMemoryConsumer.consume"],
+        covers=["run-returned", "late-arrival"]),
+    Harness(
+        name="H10-redis-two-queues", scenario=h10, workers=16, budget_s=900,
+        params={"quick": {"min_m": 4, "max_m": 1, "extra_min": 2, "extra_max": 1, "queues": 2, "dmin_us": 400000, "dmax_us": 408000, "max_limit": 2, "backend": "redis", "latency_us": 5000},
+                "thorough": {"min_m": 3, "max_m": 2, "extra_min": 2, "extra_max": 2, "queues": 2, "dmin_us": 400000, "dmax_us": 412000, "max_limit": 2, "backend": "redis", "latency_us": 5000}},
+        bounds={"broker": "Redis on the fake server, every round trip takes 5 ms", "queues": "2", "M": "4 quick / [3, 4] thorough", "backlog": "M+2 (quick) / M+2..M+3",
+                "tasks_limit": "[1, 2]", "durations": "(400 ms, 408 ms] / (400 ms, 412 ms]: long enough for each consumer to prefetch two messages ahead, so that a loop "
+                                                      "takes a buffered message while the other queue's loop starts the M-th execution"},
+        functions=["connections/redis/consumer.py:_RedisConsumer.consume", "_runner.py:_Runner.run_one_queue"], covers=["run-returned"], stubs=["fake Redis server"]),
     Harness(
         name="H10-plugin", scenario=h10_plugin, workers=4,
         bounds={"older messages in the queue": "[0, 1]", "actor duration": "[0, 2 ms]"},
